@@ -75,8 +75,13 @@ def main() -> int:
         case = report.unjson(data['case'] if isinstance(data, dict) and 'case' in data else data)
         out = driver.replay(case)
         if out:
+            known = {d: e for e in report.load_known(prop) for d in e.get('descriptors', [])}
             for d, detail in out:
-                print(f'replay: violation [{d}] {detail}')
+                print(f'replay: {"known finding" if d in known else "violation"} [{d}] {detail}')
+            if all(d in known for d, _ in out):
+                for eid in sorted({known[d]['id'] for d, _ in out}):
+                    print(f'KNOWN-FINDING: property={prop} {eid} (reproduced by this replay)')
+                return 0
             print(f'VIOLATION property={prop} replay={os.path.abspath(a.replay)}')
             return 1
         print(f'replay: property {prop} holds on this case')
